@@ -4,6 +4,11 @@ and write seeded/RESULTS.md from seeded/results/*.json"""
 import os, re, json, shutil, glob
 OUT = "/tmp/seed/out"
 DST = "/verif/seeded"
+NOTES = {
+ "C19r4A": "no longer a violation on the current tree: since fix fffe38f (hand-outs capped at the room a table has left) the stale requirement this change creates cannot overfill a table; its demo passes with the change applied",
+ "C11r4B": "not covered: needs wager to match + minimum raise to exceed 2^63 (a non-all-in bet above 2^62); the workloads stop at bankrolls around 2^58 because sums of ten such stacks no longer fit an int64 in any implementation, the monitors' included",
+ "C17r4A": "not covered: needs ApplyStates with a smaller Max than the manager was created with (a different table size mid-history); the seat histories restore documents of the same size only",
+}
 rows = []
 for rf in sorted(glob.glob(f"{DST}/results/*.json")):
     key = os.path.basename(rf)[:-5]
@@ -45,6 +50,8 @@ for rf in sorted(glob.glob(f"{DST}/results/*.json")):
         "checks": res.get("checks"),
         "author": "independent sub-agent given only the property text and a private worktree",
     }
+    if key in NOTES:
+        meta["note"] = NOTES[key]
     json.dump(meta, open(f"{d}/meta.json", "w"), indent=1)
     c = list(res.get("checks", {}).items())
     rows.append((key, title, confirmed, c))
@@ -55,7 +62,7 @@ for key, title, conf, c in rows:
     v = "; ".join(f'{p}: {"caught" if r["caught"] else "MISSED"} ({r["secs"]}s)' for p, r in c)
     sig = "; ".join(", ".join(r["signatures"][:2]) for p, r in c)
     if any(r["caught"] for p, r in c): caught += 1
-    lines.append(f"| {key} | {title[:110]} | {'yes' if conf else 'NO'} | {v} | {sig} |")
+    lines.append(f"| {key} | {title[:110]}{(' -- ' + NOTES[key]) if key in NOTES else ''} | {'yes' if conf else 'NO'} | {v} | {sig} |")
 lines += ["", f"{len(rows)} changes, {caught} caught."]
 open(f"{DST}/RESULTS.md", "w").write("\n".join(lines) + "\n")
 print(len(rows), "saved;", caught, "caught")
